@@ -12,13 +12,13 @@ def run(ck):
     ck.add_tlc(r, "builder register machine over all op sequences in bounds (36 symbols incl. every push-length boundary and script-number "
                   "corner): ParsesBack, MinimalOk, LastIsLast; NumRoundTrip on 24 script numbers")
     seq, num, tpl = (os.path.join(w, x) for x in ("seqs.ndjson", "nums.ndjson", "templates.ndjson"))
-    r = tlc_must_pass(tlc("Gen_ScriptSpec", "Gen_ScriptSpec.cfg", w, env={"GEN_LEN": 3 if q else 4, "OUT_SEQ": seq, "OUT_NUM": num, "OUT_TPL": tpl},
+    r = tlc_must_pass(tlc("Gen_ScriptSpec", "Gen_ScriptSpec.cfg", w, env={"GEN_LEN": 3 if q else 5, "OUT_SEQ": seq, "OUT_NUM": num, "OUT_TPL": tpl},
                           workers=1, timeout=3000, xmx="24g"), "C16 gen")
     ck.add_tlc(r, "sequence / number / template emission; templates mutually exclusive")
     for sub, f in (("sequences", seq), ("numbers", num), ("templates", tpl)):
         rep = vh(["script", sub, "--cases", f, "--seed", ck.seed], timeout=7000)
         ck.add_vh(rep, distinct_key="distinct_cases")
-    ck.cov["rule"] = ("sequences: every sequence of <= 3 (thorough: 4) builder operations over 36 symbols (9 opcodes incl. the five verify-foldable ones, "
+    ck.cov["rule"] = ("sequences: every sequence of <= 3 builder operations (thorough: plus all sequences of 4 and 5 over a 9-symbol core alphabet) over 36 symbols (9 opcodes incl. the five verify-foldable ones, "
                       "push_int / push_scriptint over small, boundary and 4-byte values, push_slice of 0, 1 (zero / 1..16 / 0x81), 75, 76, "
                       "255, 256, 65535, 65536 bytes, push_verify): script bytes compared with the specification's items, instructions() and "
                       "instructions_minimal() with the intended list, script numbers read back; templates: 9157 scripts of length 0..45 "
